@@ -223,7 +223,7 @@ def tlc(module, cfg, pid, name, env=None, workers=None, timeout=1200, xmx="8g", 
                 res.violated = res.violated or "temporal"
             if line.startswith("Error: Deadlock reached"):
                 res.violated = "deadlock"
-            if "Postcondition" in line and "violated" in line or line.startswith("Error: The postcondition"):
+            if line.startswith("Error: Postcondition"):
                 res.violated = res.violated or "postcondition"
             m = re.match(r"<(\w+) line \d+, col \d+ to line \d+, col \d+ of module \w+>: (\d+):(\d+)", line)
             if m:
